@@ -415,7 +415,7 @@ def r05_4c(prog, rep, rid="R05.4"):
     writer clause) must come back as a rule without occurrences: rejected, or a stored count of 0 — never as the `unset` default,
     which means unlimited."""
     n = 0
-    for part, idx, probe in (("COUNT", 1, (0, 1, 2, 64, 1000)), ("INTERVAL", 2, (2, 3, 7, 60))):
+    for part, idx, probe in (("COUNT", 1, (0, 1, 2, 64, 1000, 40000, 100000)), ("INTERVAL", 2, (2, 3, 7, 60, 86400))):
         for v in probe:
             outs, f = rrule_scalar_read(prog, part, v)
             n += 1
@@ -435,8 +435,8 @@ def r05_4c(prog, rep, rid="R05.4"):
                 rep.fail(rid, key, f.loc(), "%s=%d reads back as %s" % (part, v, sorted({o[idx] for o in acc}, key=str)), {"outcomes": [list(o) for o in outs]})
             else:
                 rep.ok(rid, key, f.loc(), "%s=%d reads back as %d" % (part, v, v), nontrivial=(v == probe[-1]))
-    if n < 9:
-        rep.broken_("rule=%s expected 9 probes of the scalar parts, ran %d" % (rid, n))
+    if n < 12:
+        rep.broken_("rule=%s expected 12 probes of the scalar parts, ran %d" % (rid, n))
 
 
 def r09_8(prog, rep, rid="R09.8"):
